@@ -172,7 +172,21 @@ impl Fw {
         } else {
             self.foreign += 1;
             w.count("foreign_observations");
+            if std::env::var("VERIF_SHOW_FOREIGN").is_ok() {
+                eprintln!("FOREIGN[{} under {}] {} {}: {}", prop.name(), self.focus.name(), oracle, sig, msg);
+            }
             Ok(())
+        }
+    }
+
+    /// C10 ("to every peer selected for it and to no other node") presupposes that peers are selected by the frame's
+    /// own destination and by the forwarding rules: under C10 a wrong selection is reported as well, in the shapes in
+    /// which the respective reference is the deciding oracle of its own check
+    fn or_c10(&self, p: Focus, validated_shape: bool) -> Focus {
+        if self.focus == Focus::C10 && validated_shape {
+            Focus::C10
+        } else {
+            p
         }
     }
 
@@ -369,7 +383,7 @@ impl Fw {
         };
         if ldst != dst_b {
             // dissection differs from the reference: forwarding of well-formed traffic is affected (C13 for VLAN folding)
-            let p = if self.tap { Focus::C13 } else { Focus::C11 };
+            let p = self.or_c10(if self.tap { Focus::C13 } else { Focus::C11 }, true);
             return self.viol(w, p, "dissection", if self.tap { "vlan-normalisation-differs" } else { "destination-differs" }, format!("n{} looked up {:?} for a frame whose destination is {:?}", i, ldst, dst_b));
         }
         // --- C11: the decision
@@ -431,9 +445,10 @@ impl Fw {
             }
             if !adm_ann.contains(&hop) {
                 let sig = if hop.is_none() { "announced-live-claim-not-used" } else { "claim-no-longer-announced-still-used" };
+                let c11_shape = matches!(self.mode, Mode::Router) || (!self.tap && self.mode == Mode::Normal);
                 return self.viol(
                     w,
-                    Focus::C11,
+                    self.or_c10(Focus::C11, c11_shape),
                     "next-hop",
                     sig,
                     format!("n{} sends {:?} to {:?}; by the announcements of its peers admissible: {:?} (live {:?}, expired but unswept {:?}; table cache entry {:?}; now {}, last sweep {})", i, dst_b, hop, adm_ann, must.iter().map(|c| (format!("{}", c.0), c.1, c.2)).collect::<Vec<_>>(), limbo.iter().map(|c| (format!("{}", c.0), c.1, c.2)).collect::<Vec<_>>(), cached_real, now, self.last_hk[i]),
@@ -448,9 +463,10 @@ impl Fw {
             }
             if !admissible.contains(&hop) {
                 let sig = if cached_real.is_some() && hop == cached_real.map(|c| c.0) { "stale-cached-decision-used" } else if hop.is_none() { "live-claim-not-used" } else { "not-most-specific-live-claim" };
+                let c11_shape = matches!(self.mode, Mode::Router) || (!self.tap && self.mode == Mode::Normal);
                 return self.viol(
                     w,
-                    Focus::C11,
+                    self.or_c10(Focus::C11, c11_shape),
                     "next-hop",
                     sig,
                     format!("n{} sends {:?} to {:?}; admissible: {:?} (longest match /{:?} by {:?}; cache entry {:?}; now {}, last sweep {})", i, dst_b, hop, admissible, best, lpm_peers, cached_real, now, self.last_hk[i]),
@@ -501,7 +517,8 @@ impl Fw {
                     (Some(_), Some(_)) => "wrong-or-expired-learned-hop",
                     _ => "lookup-differs-from-learning-model",
                 };
-                return self.viol(w, Focus::C13, "learning", sig, format!("n{} forwards destination {:?} to {:?}; reference learning table says {:?} (entry {:?}, now {}, switch timeout {}, last sweep {})", i, dst_b, hop, adm, l, now, self.switch_timeout, self.last_hk[i]));
+                let p = self.or_c10(Focus::C13, self.tap);
+                return self.viol(w, p, "learning", sig, format!("n{} forwards destination {:?} to {:?}; reference learning table says {:?} (entry {:?}, now {}, switch timeout {}, last sweep {})", i, dst_b, hop, adm, l, now, self.switch_timeout, self.last_hk[i]));
             }
         }
         // --- C10: conservation for this interface read
@@ -834,6 +851,12 @@ pub fn scenario(w: &mut World, ctx: &RunCtx, focus: Focus, states: &mut Vec<u64>
     if multi {
         w.count("fwd_multi_homed_meshes");
     }
+    // a node told to dial an address that leads back to itself (port forward / hair-pin; its datagrams to Y come back
+    // from Z and vice versa): it must not become its own peer, or everything it floods or claims loops back
+    let hairpin = !multi && w.ch.chance("hairpin_self_dial", 150);
+    if hairpin {
+        w.count("fwd_hairpin_self_dials");
+    }
     for i in 0..n {
         let mut c = if tap { mesh::tap_node(i) } else { mesh::tun_node(i) };
         c.key = k;
@@ -852,9 +875,21 @@ pub fn scenario(w: &mut World, ctx: &RunCtx, focus: Focus, states: &mut Vec<u64>
                 c.peers.push(mesh::node_text(j, fam));
             }
         }
+        if hairpin && i == n - 1 {
+            let y = crate::net::mapped_addr(SocketAddr::new(std::net::IpAddr::V4(std::net::Ipv4Addr::new(198, 51, 100, 1)), 3210));
+            c.peers.push(super::world::addr_text(y));
+        }
         w.add_node(c, fam);
         if multi {
             w.set_second_addr(i, second(i));
+        }
+        if hairpin && i == n - 1 {
+            let y = crate::net::mapped_addr(SocketAddr::new(std::net::IpAddr::V4(std::net::Ipv4Addr::new(198, 51, 100, 1)), 3210));
+            let z = crate::net::mapped_addr(SocketAddr::new(std::net::IpAddr::V4(std::net::Ipv4Addr::new(198, 51, 100, 2)), 3210));
+            w.aliases.insert(y, i);
+            w.aliases.insert(z, i);
+            w.alias_src.insert(y, z);
+            w.alias_src.insert(z, y);
         }
     }
     w.count(match (tap, mode) {
